@@ -3,6 +3,7 @@ package props
 import (
 	"errors"
 	"fmt"
+	"github.com/wrgl/wrgl/pkg/objects"
 	"math/rand"
 	"sort"
 	"strings"
@@ -29,13 +30,16 @@ type c08Params struct {
 }
 
 type c08Scenario struct {
-	parents [][]int
-	mode    string
-	refs    []int
-	wants   []int
-	rounds  [][]int // have batches; -1 = unknown hash
-	depth   int
-	shallow map[int]bool
+	parents     [][]int
+	mode        string
+	refs        []int
+	wants       []int
+	rounds      [][]int // have batches; -1 = unknown hash
+	depth       int
+	shallow     map[int]bool
+	nsShift     int  // which ref namespace the j-th ref gets
+	noDone      bool // the negotiation ends without a round marked done (the answers are read while wants are pending)
+	tablesFirst bool // TablesToSend is asked before CommitsToSend
 }
 
 func (s *c08Scenario) String() string {
@@ -70,7 +74,9 @@ func c08Build(sc *c08Scenario, rng *rand.Rand) (*c08World, error) {
 	w.rs = rs
 	w.close = func() { sdb.Close() }
 	for j, r := range sc.refs {
-		if err := rs.Set(fmt.Sprintf("heads/b%d", j), d.sums[r]); err != nil {
+		// refs of every namespace make a commit reachable
+		name := []string{"heads/b%d", "remotes/origin/b%d", "tags/t%d", "heads/b%d"}[(j+sc.nsShift)%4]
+		if err := rs.Set(fmt.Sprintf(name, j), d.sums[r]); err != nil {
 			return nil, err
 		}
 	}
@@ -153,7 +159,7 @@ func c08Check(o *fw.Obs, sc *c08Scenario, rng *rand.Rand, class string) {
 		rounds = [][]int{nil}
 	}
 	for ri, batch := range rounds {
-		done := ri == len(rounds)-1
+		done := ri == len(rounds)-1 && !sc.noDone
 		var wants [][]byte
 		if ri == 0 {
 			wants = toSums(sc.wants)
@@ -250,12 +256,21 @@ func c08Check(o *fw.Obs, sc *c08Scenario, rng *rand.Rand, class string) {
 			break
 		}
 	}
-	commits, err := finder.CommitsToSend()
+	var commits []*objects.Commit
+	var tables map[string]struct{}
+	if sc.tablesFirst {
+		tables, err = finder.TablesToSend()
+	}
+	if err == nil {
+		commits, err = finder.CommitsToSend()
+	}
 	if err != nil {
 		o.Violate("commits-error/ClosedSetsFinder/"+class, "%v\n%s", err, sc)
 		return
 	}
-	tables, err := finder.TablesToSend()
+	if !sc.tablesFirst {
+		tables, err = finder.TablesToSend()
+	}
 	if err != nil {
 		o.Violate("tables-error/ClosedSetsFinder/"+class, "%v\n%s", err, sc)
 		return
@@ -425,6 +440,7 @@ func c08RandScenario(rng *rand.Rand, parents [][]int) *c08Scenario {
 	if rng.Intn(5) == 0 {
 		sc.shallow[rng.Intn(n)] = true
 	}
+	sc.nsShift, sc.noDone, sc.tablesFirst = rng.Intn(4), rng.Intn(4) == 0, rng.Intn(2) == 0
 	return sc
 }
 
